@@ -320,7 +320,8 @@ theorem stepThread_pcok (c : Cfg) (s : St) (t : Th) (s' : St) (t' : Th) (ev : Li
       simp only [stepThread] at h
       split at h <;> (simp only [Option.some.injEq, Prod.mk.injEq] at h; obtain ⟨_, rfl, _⟩ := h; simp [PCok])
     | afterExists dup =>
-      cases dup <;> (simp only [stepThread, Option.some.injEq, Prod.mk.injEq] at h; obtain ⟨_, rfl, _⟩ := h; simp [PCok])
+      cases dup <;> (simp only [stepThread, Option.some.injEq, Prod.mk.injEq] at h; obtain ⟨_, rfl, _⟩ := h) <;>
+        (try cases s.decoys.contains k) <;> simp [PCok]
     | afterTrack =>
       simp only [stepThread] at h
       split at h
